@@ -57,6 +57,7 @@ fn call(name: &str, a: u64, b: u64, c: u64) -> u64 {
         "t_hashset_from_vec_contains" => modeltest::t_hashset_from_vec_contains(a, b, c),
         "t_dedup_by_then_with" => modeltest::t_dedup_by_then_with(a, b, c),
         "t_chunks_copy" => modeltest::t_chunks_copy(a, b, c),
+        "t_hashset_eq" => modeltest::t_hashset_eq(a, b, c),
         _ => panic!("unknown function"),
     }
 }
